@@ -156,11 +156,11 @@ theorem wf_withMarkSets {v : Value} (mss : List (List String)) (h : v.WF nfc = t
   · exact wf_withMarks _ h
 
 /-- `SetVal`, whenever it returns, given well-formed members on which the set rules are lawful. -/
-theorem wf_setVal_partial {ws : List Value} {hs : List Int} {r : Value} (h : setVal ws hs = .ok r)
+theorem wf_setVal_partial {ws : List Value} {hs : List Int} {r : Value} (h : setValH ws hs = .ok r)
     (hws : ∀ w ∈ ws, w.WF nfc = true)
     (hok : ∀ et, Gocty.elemTypeOf .dyn (ws.map setMember) = .ok et →
       setRulesOk et ((Gocty.payloads (ws.map setMember)).zip hs) = true) : r.WF nfc = true := by
-  unfold setVal at h
+  unfold setValH at h
   split at h
   · cases h
   · simp only at h
